@@ -139,6 +139,17 @@ class Sampler:
         r = self.r
         members = flat_members(comp)
         vals = []
+        stack = getattr(self, "_stack", None)
+        if stack is None:
+            stack = self._stack = []
+        stack.append(comp)
+        try:
+            return self._complex(comp, mode, members, vals, stack)
+        finally:
+            stack.pop()
+
+    def _complex(self, comp, mode, members, vals, stack):
+        r = self.r
         # choices: pick one branch (a leaf or a nested group) per choice group, for schema validity
         paths = {id(m["item"]): self._choice_path(m) for m in members if m["kind"] != "attribute"}
         pick = {}
@@ -152,6 +163,11 @@ class Sampler:
             pth = paths.get(id(it), [])
             in_choice = bool(pth)
             if any(pick[id(ch)] != idx for ch, idx in pth):
+                vals.append([] if m["repeated"] else None)
+                continue
+            tk, tt = member_target(m)
+            if tk != "builtin" and any(tt is c for c in stack):
+                # a member of the type that is being built (directly or further up): always left out, values stay finite
                 vals.append([] if m["repeated"] else None)
                 continue
             sub = "rand" if mode in ("full", "many", "min", "rand") else mode
